@@ -210,7 +210,8 @@ def mutate(rng, b):
             b[mm.start(1):mm.end(1)] = str(max(0, int(mm.group(1)) + rng.choice([-1, 1, 2, 50, 100000]))).encode() if rng.random() < 0.8 else b'-3'
     elif k == 8:
         sub(b'/Size', rng.choice([b'/Prev 0/Size', b'/Prev 9/Size', b'/Prev -1/Size', b'/Prev 999999/Size', b'/Prev(x)/Size', b'/Siz',
-                                   b'/XRefStm 0/Prev 0/Size', b'/Encrypt 1 0 R/Size']), 'last')
+                                   b'/XRefStm 0/Prev 0/Size', b'/XRefStm -1/Prev 0/Size', b'/XRefStm 999999/Prev 0/Size', b'/XRefStm 0/Prev -1/Size',
+                                   b'/XRefStm(x)/Prev 0/Size', b'/Encrypt 1 0 R/Size']), 'last')
     elif k == 9:
         sub(b'xref\n', rng.choice([b'xref\r\n', b'xref\r', b'xref \n', b'xreg\n', b'xref\n\n']), 'last')
     elif k == 10:
